@@ -7,8 +7,15 @@
 //!   buffer alone or inserts characters exactly at the cursor (cursor behind them);
 //! * keys handled in `EnteringSyllable`: the buffer is untouched or exactly one syllable is inserted
 //!   at the cursor and the cursor advances by one (Esc with esc_clear_all_buffer may clear it);
-//! * after every key that ends in `Entering` with Absorb or Commit the buffer is no longer than
-//!   auto_commit_threshold; an auto-commit removes a prefix only (cursor shifted, saturating).
+//! * THE BOUND, after EVERY key answered Absorb or Commit, in whatever state it ends: in `Entering` and in
+//!   `EnteringSyllable` the buffer is no longer than auto_commit_threshold (the limit in force); while a candidate
+//!   list is open or a range is highlighted it is no longer than the largest limit in force since the last
+//!   auto-commit opportunity plus one (the simple engine opens its one-word list before the auto-commit; the limit
+//!   may have been lowered in mid-composition - the longer buffer stays until the next absorbed key); the same after
+//!   a `select` call that closes the list.  (Until the FX3/FX4 repair the code, and this oracle, enforced the limit
+//!   only after keys ending in `Entering`: a fuzzy key inserting in `EnteringSyllable`, and the first key after a
+//!   list closed by `cancel_selecting`, went unchecked and the buffer grew without bound.)  An auto-commit removes
+//!   a prefix only (cursor shifted, saturating).
 //! * candidate lists (cursor save / restore around a selection), a shadow FRAME per open list, kept across steps:
 //!   the frame remembers buffer and cursor of the moment the list was opened (by a key or by `start_selecting`);
 //!   however the list is closed WITHOUT choosing (Esc, Up, Backspace, CapsLock, `cancel_selecting`, a call that empties
@@ -62,6 +69,24 @@ thread_local! {
 }
 
 thread_local! {
+    /// (session, largest limit in force since the last auto-commit opportunity)
+    static MAXTHR: Cell<(u64, usize)> = const { Cell::new((u64::MAX, 0)) };
+    /// (bound evaluated after a key ending in EnteringSyllable, ... ending under a list / highlight,
+    ///  fuzzy insertions in EnteringSyllable followed by an auto-commit, auto-commits at a key that goes
+    ///  Entering -> EnteringSyllable (what a closed list or a lowered limit left over), keys/calls after which the
+    ///  buffer is one over the limit in Entering (list closed by an API call), bound evaluated after a select call)
+    static BSTATS: Cell<[u64; 6]> = const { Cell::new([0; 6]) };
+}
+
+fn bstat(i: usize) {
+    BSTATS.with(|s| {
+        let mut v = s.get();
+        v[i] += 1;
+        s.set(v);
+    });
+}
+
+thread_local! {
     /// (keys typed with the buffer >= 2 over the limit, easy-symbol expansions typed at limit / limit-1,
     ///  auto-commits that removed >= 2 symbols at once)
     static STATS: Cell<(u64, u64, u64)> = const { Cell::new((0, 0, 0)) };
@@ -72,6 +97,14 @@ pub fn finish(out: &mut Out) {
     out.stat("c05_keys_with_buffer_2_or_more_over_limit", b);
     out.stat("c05_two_char_expansions_at_or_next_to_limit", a);
     out.stat("c05_auto_commits_removing_2_or_more", multi);
+    let b = BSTATS.with(|s| s.get());
+    out.stat("c05_bound_checked_after_key_ending_in_entering_syllable", b[0]);
+    out.stat("c05_bound_checked_after_key_ending_under_list_or_highlight", b[1]);
+    out.stat("c05_fuzzy_insertions_in_entering_syllable_followed_by_auto_commit", b[2]);
+    out.stat("c05_auto_commits_at_key_from_entering_to_entering_syllable", b[3]);
+    out.stat("c05_steps_leaving_entering_one_over_the_limit_by_api_call", b[4]);
+    out.stat("c05_bound_checked_after_select_call", b[5]);
+    crate::script_c05::finish(out);
     FSTATS.with(|f| {
         let f = f.borrow();
         out.stat("c05_list_frames_opened", f.opened);
@@ -301,13 +334,61 @@ pub fn check(out: &mut Out, st: &Step) {
         out.oracle_fail("C05", "new", &format!("cursor {} beyond the buffer length {} after: {}", c1, s1.len(), st.hist()));
     }
     frames(out, st, &s0, &s1, c0, c1);
+    let state0 = sections(pre)[0].as_bytes()[0];
+    let state1 = sections(post)[0].as_bytes()[0];
+    // ---- the bound (see the module comment)
+    {
+        let (thr0, thr1) = (opt(pre, 6), opt(post, 6));
+        let mut maxthr = match MAXTHR.with(|m| m.get()) {
+            (sid, m) if sid == st.sid => m,
+            _ => thr0,
+        };
+        maxthr = maxthr.max(thr0).max(thr1);
+        let editing1 = state1 == b'E' || state1 == b'Y';
+        let handled = match st.key {
+            Some(_) => st.ret == "A" || st.ret == "C",
+            // `select` runs the same tail as a key (the choice closes the list: Absorb, then the auto-commit)
+            None => st.op.starts_with("select") && st.ret == "ok" && state0 == b'S' && editing1 && matches!(misc(post)[0], "A" | "C"),
+        };
+        if handled {
+            if editing1 {
+                if s1.len() > thr1 {
+                    out.oracle_fail("C05", "new", &format!(
+                        "buffer length {} > auto_commit_threshold {} after a handled {} ending in {}: {}",
+                        s1.len(), thr1, if st.key.is_some() { "key" } else { "select call" },
+                        if state1 == b'E' { "Entering" } else { "EnteringSyllable" }, st.hist()));
+                }
+                if state1 == b'Y' {
+                    bstat(0);
+                }
+                if st.key.is_none() {
+                    bstat(5);
+                }
+                if st.key.is_some() && st.ret == "C" && state0 == b'Y' && state1 == b'Y' {
+                    bstat(2);
+                }
+                if st.key.is_some() && st.ret == "C" && state0 == b'E' && state1 == b'Y' {
+                    bstat(3);
+                }
+                maxthr = thr1;
+            } else {
+                bstat(1);
+                if s1.len() > maxthr + 1 {
+                    out.oracle_fail("C05", "new", &format!(
+                        "buffer length {} > {} + 1 (the largest auto_commit_threshold in force since the last auto-commit opportunity) after a handled key ending under a candidate list / highlight: {}",
+                        s1.len(), maxthr, st.hist()));
+                }
+            }
+        } else if st.key.is_none() && state0 == b'S' && state1 == b'E' && s1.len() == thr1 + 1 {
+            bstat(4);
+        }
+        MAXTHR.with(|m| m.set((st.sid, maxthr)));
+    }
     let ev = match st.key {
         Some(ev) => ev,
         None => return,
     };
     let thr = opt(pre, 6);
-    let state0 = sections(pre)[0].as_bytes()[0];
-    let state1 = sections(post)[0].as_bytes()[0];
     {
         let over2 = s0.len() >= thr + 2;
         let expands = state0 == b'E' && opt(pre, 0) == 1 && opt(pre, 8) == 0 && !ev.modifiers.numlock
@@ -317,9 +398,6 @@ pub fn check(out: &mut Out, st: &Step) {
             let (b, a, m) = s.get();
             s.set((b + over2 as u64, a + expands as u64, m + multi as u64));
         });
-    }
-    if state1 == b'E' && (st.ret == "A" || st.ret == "C") && s1.len() > thr {
-        out.oracle_fail("C05", "new", &format!("buffer length {} > auto_commit_threshold {} after a handled key: {}", s1.len(), thr, st.hist()));
     }
     let own = |v: &[&str]| -> Vec<String> { v.iter().map(|s| s.to_string()).collect() };
     let n = s0.len();
@@ -400,11 +478,16 @@ pub fn check(out: &mut Out, st: &Step) {
                     "character key {:?} in Entering neither left the buffer alone nor inserted at the cursor {}: [{}] -> [{}] cursor {}: {}",
                     ev.code, c0, s0.join(" "), s1.join(" "), c1, st.hist()));
             }
-        } else if state1 != b'E' && !(s0.len() == s1.len() && s0.iter().zip(&s1).all(|(a, b)| a == b)) {
+        } else if state1 != b'E' && !(s0.len() == s1.len() && s0.iter().zip(&s1).all(|(a, b)| a == b))
+            // (Entering -> EnteringSyllable is an absorbed key: what a closed list or a lowered limit left over the
+            //  limit is auto-committed now)
+            && !(state1 == b'Y' && after_tail(&own(&s0), c0, &s1, c1, thr, st.ret))
+        {
             out.oracle_fail("C05", "new", &format!("leaving Entering changed the buffer: [{}] -> [{}]: {}", s0.join(" "), s1.join(" "), st.hist()));
         }
     } else if state0 == b'Y' {
-        let same = if state1 == b'E' {
+        let editing1 = state1 == b'E' || state1 == b'Y';
+        let same = if editing1 {
             after_tail(&own(&s0), c0, &s1, c1, thr, st.ret) || (n == s1.len() && s0.iter().zip(&s1).all(|(a, b)| a == b) && c1 == c0)
         } else {
             n == s1.len() && s0.iter().zip(&s1).all(|(a, b)| a == b) && c1 == c0
@@ -416,8 +499,8 @@ pub fn check(out: &mut Out, st: &Step) {
         if state1 == b'E' || state1 == b'S' || state1 == b'Y' {
             if s1.len() == n + 1 && c0 < s1.len() && s1[c0].starts_with('s') {
                 v.insert(c0, s1[c0].to_string());
-                one = (state1 != b'E' && own(&s1) == v && c1 == c0 + 1) || (state1 == b'E' && after_tail(&v, c0 + 1, &s1, c1, thr, st.ret));
-            } else if state1 == b'E' && st.ret == "C" && n + 1 > thr && s1.len() <= n {
+                one = (!editing1 && own(&s1) == v && c1 == c0 + 1) || (editing1 && after_tail(&v, c0 + 1, &s1, c1, thr, st.ret));
+            } else if editing1 && st.ret == "C" && n + 1 > thr && s1.len() <= n {
                 // inserted, then a prefix was auto-committed: reconstruct with a wildcard syllable
                 let r = n + 1 - s1.len();
                 let mut good = s1.len() <= thr && c1 == (c0 + 1).saturating_sub(r);
